@@ -5,6 +5,6 @@ CONSTANTS
   MaxLen = 5
   Alphabet = {0, 1}
   Repaired = TRUE
-  EOFChecked = TRUE
+  EOFChecked = FALSE
 INVARIANTS NeverSilentlyWrong UndamagedAccepted
 CHECK_DEADLOCK TRUE
